@@ -17,6 +17,7 @@
 -/
 import SH.Model.Delivery
 import SH.Lemmas.Delivery
+import SH.Lemmas.DeliveryMain
 import SH.Lemmas.DeliveryLive
 
 namespace SH.Props.C01
@@ -590,6 +591,56 @@ example :
     (reach true true 50 1000 3 200 [.recent 201, .recv 1, .tick 0 205 true]).resps.map (fun a => (a.rid, a.sec, a.discard)) = [(1, 201, true)] ∧
     (reach true true 50 1000 3 200 [.recent 201, .recv 1, .tick 0 205 true]).ag.flights.map (fun f => (f.rid, f.cbd.sec)) = [(1, 201)] := by
   decide
+
+/-! ### every bucket the agent sends fits the aggregator's size limit -/
+
+/-- the per-second sampling budget of sampleBucket: an explicit `--shard-sample-budget` override or the derived budget,
+clamped to half of the aggregator's uncompressed-bucket limit — for every source iff `clampAll` -/
+def sampleBudget (override : Option Nat) (derived limit : Nat) (clampAll : Bool) : Nat :=
+  match override with
+  | some b => if clampAll then min b (limit / 2) else b
+  | none => min derived (limit / 2)
+
+/-- with the clamp applied to every budget source the sampler is never allowed more than half of what the aggregator's
+`compress.Decompress` accepts (an oversize bucket is answered "discard" and the agent would erase the second) -/
+theorem sampleBudget_fits (override : Option Nat) (derived limit : Nat) : sampleBudget override derived limit true ≤ limit / 2 := by
+  unfold sampleBudget; split
+  · simp only [if_true]; exact Nat.min_le_right _ _
+  · exact Nat.min_le_right _ _
+
+/-- the current source clamps at the top level of sampleBucket's body, i.e. after both sources (regenerated fact) -/
+theorem sampleBudget_clamp_now : sampleBudgetClampTopLevel = true := by decide
+
+/-- the variant that clamps only the derived budget lets an override of 64 MiB through -/
+example : ¬ (sampleBudget (some (64 * 2 ^ 20)) 0 maxUncompressedBucketSize false ≤ maxUncompressedBucketSize / 2) := by decide
+example : sampleBudget (some (64 * 2 ^ 20)) 0 maxUncompressedBucketSize true = maxUncompressedBucketSize / 2 := by decide
+
+/-! ### the delayed inserter: snapshot of oldestTime vs the window that moved on -/
+
+/-- An inserter delayed between its `oldestTime` snapshot and its pop classes a historic bucket as stale (answers its
+contributors "discard" without inserting) only if the bucket is older than the SNAPSHOT minus the historic window — in
+particular never a bucket newer than the snapshot, which is what arrives when the window advanced meanwhile. -/
+theorem delayed_inserter_stale_only_older (will : Bool) (b : Bucket) (h : List Bucket) (snap w : Nat) (ok : Bool) (a : Resp)
+    (ha : a ∈ (insertOneW will b h snap w ok).resps) (hs : a.why = .stale) :
+    ∃ x ∈ h, (a.rid, a.sec) ∈ x.reqs ∧ w ≤ snap ∧ x.time < snap - w ∧ x.time < snap := by
+  obtain ⟨x, hx, hp, hw, ht⟩ := insertOneW_stale_older will b h snap w ok a ha hs
+  exact ⟨x, hx, hp, hw, ht, by omega⟩
+
+/-- the unsigned rewrite `oldestTime - v.time > historicWindow` (uint32) agrees with the test only for buckets not newer
+than the snapshot: for one that is newer the subtraction wraps and the bucket is classed stale -/
+def isStaleWrapped (snap w t : Nat) : Bool := decide ((snap + 2 ^ 32 - t) % 2 ^ 32 > w)
+example : isStale 3000021 1000 { time := 3000024, reqs := [(7, 3000024)], secs := [3000024], joined := 1 } = false ∧
+          isStaleWrapped 3000021 1000 3000024 = true := by decide
+example : isStale 3000021 1000 { time := 2998000, reqs := [], secs := [], joined := 0 } = true ∧ isStaleWrapped 3000021 1000 2998000 = true := by decide
+
+/-- the interleaving as an operation sequence of the model: second 207 sits in a sender's hands, replica 0 already holds a
+historic bucket (198); its inserter takes the snapshot 201 at now1 = 204, the ticker fires again at now2 = 211 (window now
+starts at 208), the historic request for 207 (> snapshot, < new oldest) arrives and is parked as a historic bucket; the
+delayed inserter takes it along and INSERTS it — it is not classed stale -/
+example :
+    let s := run (init true false 50 1000 3 200) [.overflow 198, .pop 50, .recv 1, .overflow 207, .pop 50, .tickRace 0 204 211 2 true]
+    (s.inserted.contains 207, s.rejected, s.resps.map (fun a => (a.sec, a.discard, a.why))) =
+      (true, [], [(198, true, .inserted), (207, true, .inserted)]) := by decide
 
 /-! ### liveness, schedule-existence form -/
 
